@@ -667,6 +667,24 @@ func (e *SpecEnv) call(x *spec.Call) Val {
 			return Val{T: I, Term: vc.mapCard(vc.S.Sort(v.T), vc.S.Sort(u.Key()), e.termOf(v))}
 		}
 		return e.fail(x, "len of %s", v.T)
+	case "empty":
+		if need(1) {
+			v := arg(0)
+			if v.T != nil {
+				switch u := v.T.Underlying().(type) {
+				case *types.Map:
+					ms := vc.S.Sort(v.T)
+					vc.n++
+					kv := fmt.Sprintf("?e%d", vc.n)
+					return Val{T: B, Term: fmt.Sprintf("(or %s (forall ((%s %s)) (not %s)))", mapNil(ms, e.termOf(v)), kv, vc.S.Sort(u.Key()), mapHas(ms, e.termOf(v), kv))}
+				case *types.Slice:
+					return Val{T: B, Term: fmt.Sprintf("(= %s 0)", vc.sliceLen(vc.S.Sort(v.T), e.termOf(v)))}
+				case *types.Basic:
+					return Val{T: B, Term: fmt.Sprintf("(= %s \"\")", e.termOf(v))}
+				}
+			}
+			return e.fail(x, "empty() needs a map, slice or string")
+		}
 	case "hasPrefix":
 		if need(2) {
 			return Val{T: B, Term: fmt.Sprintf("(str.prefixof %s %s)", argT(1), argT(0))}
